@@ -393,12 +393,12 @@ class VCtxIterSum(ContextProcessor):
 
     def _process_logic(self, items):
         total = 0.0
-        n = 0
+        seen = []
         for x in items:
             total += float(x)
-            n += 1
-        REC.add("VCtxIterSum", None, {"n": n})
-        self._notify_context_update("iter_total", [total, n])
+            seen.append(float(x))
+        REC.add("VCtxIterSum", None, {"items": seen})
+        self._notify_context_update("iter_total", [total, len(seen)])
 
 
 class VCtxMakeIter(ContextProcessor):
